@@ -339,7 +339,7 @@ func (s *uStateList) OnArrayFinished(ctx gotype.UnfoldCtx) error {
 
 // UnfoldOptions returns the option registering the user unfolders above.
 func UnfoldOptions() gotype.UnfoldOption {
-	return gotype.Unfolders(UnfoldUNum, UnfoldUStr, UnfoldUProc, UnfoldUState)
+	return gotype.Unfolders(append([]interface{}{UnfoldUNum, UnfoldUStr, UnfoldUProc, UnfoldUState}, upUnfolders...)...)
 }
 
 var (
@@ -351,7 +351,7 @@ var (
 
 // UsesUserUnfolder reports whether a target of type t needs UnfoldOptions.
 func UsesUserUnfolder(t reflect.Type) bool {
-	return usesAny(t, 0, map[reflect.Type]bool{}, uNumType, uStrType, uProcType, uStateType)
+	return usesAny(t, 0, map[reflect.Type]bool{}, append([]reflect.Type{uNumType, uStrType, uProcType, uStateType}, upTypes...)...)
 }
 
 func usesAny(t reflect.Type, depth int, seen map[reflect.Type]bool, wanted ...reflect.Type) bool {
